@@ -684,7 +684,40 @@ func treeCase(n int64, h tlog.Hash, extra string) string {
 
 var textAlpha = []string{"a", " ", "\n", "é", "\x01", "\xff", "\ufffd"}
 
+// FirstCalls is the menu of the fresh-process call-order check.
+func FirstCalls() []fw.Call {
+	var out []fw.Call
+	lgOf := func(n int) *tlogx.Log { lg, _ := tlogx.Build(tlogx.Pattern(0, n)); return lg }
+	for _, n := range []int{1, 7, 13} {
+		n := n
+		out = append(out, fw.Call{Name: fmt.Sprintf("build+TreeHash(%d)", n), F: func() string {
+			lg := lgOf(n)
+			h, err := tlog.TreeHash(int64(n), lg)
+			return fmt.Sprint(h, err, h == lg.Root(n))
+		}})
+		out = append(out, fw.Call{Name: fmt.Sprintf("proofs(%d)", n), F: func() string {
+			lg := lgOf(n)
+			p, e1 := tlog.ProveRecord(int64(n), int64(n/2), lg)
+			t, e2 := tlog.ProveTree(int64(n), int64(n/2+1), lg)
+			return fmt.Sprint(p, e1, t, e2, tlog.CheckRecord(p, int64(n), lg.Root(n), int64(n/2), tlog.Hash(lg.Ref.Leaves[n/2])), tlog.CheckTree(t, int64(n), lg.Root(n), int64(n/2+1), lg.Root(n/2+1)))
+		}})
+	}
+	out = append(out, fw.Call{Name: "failing reader", F: func() string {
+		_, e1 := tlog.ProveTree(13, 5, tlog.HashReaderFunc(func([]int64) ([]tlog.Hash, error) { return nil, fmt.Errorf("injected") }))
+		_, e2 := tlog.TreeHash(11, tlog.HashReaderFunc(func(ix []int64) ([]tlog.Hash, error) { return make([]tlog.Hash, len(ix)+1), nil }))
+		return fmt.Sprint(e1, e2)
+	}})
+	out = append(out, fw.Call{Name: "records+trees", F: func() string {
+		m, e1 := tlog.FormatRecord(10, []byte("a b\nc\n"))
+		id, text, rest, e2 := tlog.ParseRecord(append(m, []byte("tail")...))
+		t, e3 := tlog.ParseTree(tlog.FormatTree(tlog.Tree{N: 5, Hash: tlog.RecordHash([]byte("x"))}))
+		return fmt.Sprint(string(m), e1, id, string(text), string(rest), e2, t, e3, tlog.StoredHashIndex(3, 5), tlog.StoredHashCount(13))
+	}})
+	return out
+}
+
 func Run(r *fw.Run) {
+	defer fw.FirstCallOrders(r, r.ID, FirstCalls(), nil)
 	N := r.Pick(1500, 8000)
 	nSmall := r.Pick(160, 320)
 	Lt := r.Pick(6, 7)
